@@ -26,19 +26,40 @@ import logging
 logging.disable(logging.CRITICAL)
 
 _uid = [0]
+BIGINT = -1073741823  # CStruct!BigInt
 
-# exception class names / message fragments by which a raising named deviation is recognised
+# How a RAISING named deviation is recognised: exception class name, and the class of `self` in the innermost
+# frame of amoco/system/structs the exception went through ("StructCore" for any definition class,
+# "StructCore/typedef" for a typedef class).
 PACK_EXC = {
-    "BitfieldPack": [("AttributeError", "subnames")],
-    "NestPack": [("TypeError", "not iterable"), ("TypeError", "zip")],
-    "NestArrayPack": [("TypeError", "attribute name must be string")],
-    "RawArrayPack": [("error", "")],
-    "TypedefPack": [("AttributeError", "has no attribute 'fields'"), ("TypeError", "not iterable")],
-    "VarBytesPack": [("error", "must be a bytes object"), ("error", "bytes")],
-    "CntEmptyPack": [("error", ""), ("TypeError", "has no len")],
-    "CntSeqPack": [("error", "")],
-    "BoundPack": [("error", ""), ("TypeError", "has no len")],
+    "BitfieldPack": [("AttributeError", "StructCore")],
+    "NestPack": [("TypeError", "StructCore")],
+    "NestArrayPack": [("TypeError", "StructCore")],
+    "TypedefPack": [("AttributeError", "int"), ("TypeError", "StructCore/typedef")],
+    "RawArrayPack": [("error", "RawField")],
+    "VarBytesPack": [("error", "VarField")],
+    "CntEmptyPack": [("error", "CntField"), ("TypeError", "CntField")],
+    "CntSeqPack": [("error", "CntField")],
+    "BoundPack": [("error", "BindedField"), ("TypeError", "BindedField")],
 }
+
+
+def where(e):
+    """class of `self` in the innermost amoco/system/structs frame of the traceback of e"""
+    tb = e.__traceback__
+    found = "?"
+    while tb is not None:
+        fr = tb.tb_frame
+        if "system/structs" in fr.f_code.co_filename.replace("\\", "/"):
+            me = fr.f_locals.get("self", None)
+            if me is None:
+                found = "?"
+            elif isinstance(me, S.StructCore):
+                found = "StructCore/typedef" if type(me).typedef else "StructCore"
+            else:
+                found = type(me).__name__
+        tb = tb.tb_next
+    return found
 
 
 # ---------------------------------------------------------------------------------------------
@@ -89,7 +110,7 @@ def expected(d, vals):
         elif k in ("var", "cnt", "bound"):
             out.append(list(v) if t in "sc" else [_int(x) for x in v])
         elif k == "leb":
-            out.append(v)
+            out.append(("unrepresentable-int",) if v == BIGINT else v)
     return out
 
 
@@ -136,6 +157,8 @@ def same(obs, pred):
     part of a DEVIATION's prediction, where other bytes are read) stands for any float"""
     if pred == ("unrepresentable",):
         return isinstance(obs, float)
+    if pred == ("unrepresentable-int",):
+        return isinstance(obs, int) and abs(obs) >= (1 << 28)
     if isinstance(pred, list):
         return isinstance(obs, list) and len(obs) == len(pred) and all(same(o, p) for o, p in zip(obs, pred))
     return obs == pred and type(obs) == type(pred)
@@ -215,7 +238,7 @@ def _devkey(clause, devs):
 
 
 def replay_case(case):
-    """-> list of failures [(key, what)], list of drift strings, set of shape tags"""
+    """-> list of failures [(key, what)], set of tags naming the clauses that held"""
     fails = []
     ps = case["ps"]
     d = case["def"]
@@ -261,16 +284,17 @@ def replay_case(case):
     except Exception as e:
         obs = None
         hit = None
-        for dv in case["valsDev"]:
-            if dv.get("oob") or dv.get("trig"):
-                hit = dv["devs"] + dv.get("trig", [])[:1]
-                break
+        if not case["unpTrig"]:
+            for dv in sorted(case["valsDev"], key=lambda dv: len(dv["devs"])):
+                if dv.get("oob") or dv.get("trig"):
+                    hit = dv["devs"] + dv.get("trig", [])[:1]
+                    break
         what = "ps=%d: unpack raised %s" % (ps, _exc(e))
-        if hit:
+        if case["unpTrig"]:
+            fails.append(("C16:Dev_" + case["unpTrig"][0], what))
+        elif hit:
             for k in _devkey("unpack", hit):
                 fails.append((k, what + " (the deviation reads beyond the buffer or meets a raising one)"))
-        elif case["unpTrig"]:
-            fails.append(("C16:Dev_" + case["unpTrig"][0], what))
         else:
             fails.append(("C16:unpack:raises:" + type(e).__name__, what))
     if obs is not None:
@@ -304,13 +328,13 @@ def replay_case(case):
             got = list(got) if isinstance(got, (bytes, bytearray)) else ("not-bytes", type(got).__name__)
         except Exception as e:
             got = None
-            en, msg = type(e).__name__, str(e)
+            en, at = type(e).__name__, where(e)
             hit = None
-            for t in case["packTrig"]:
-                if any(en == c and frag in msg for c, frag in PACK_EXC.get(t, ())):
+            for t in case["packTrig"]:  # in amoco's order of evaluation: the first one that fits
+                if (en, at) in PACK_EXC.get(t, ()):
                     hit = t
                     break
-            what = "ps=%d: pack raised %s" % (ps, _exc(e))
+            what = "ps=%d: pack raised %s in %s.pack" % (ps, _exc(e), at)
             if hit:
                 fails.append(("C16:Dev_" + hit, what))
             else:
@@ -356,6 +380,7 @@ def replay_chunk(job):
     from . import tlc
     spool, lo, hi = job
     out = {"n": 0, "fails": [], "tags": {}, "shapes": set(), "kinds": {}, "sample": None, "clean": 0}
+    seen = {}
     for case in tlc.iter_spool_range(spool, lo, hi):
         out["n"] += 1
         fails, tags = replay_case(case)
@@ -368,8 +393,9 @@ def replay_chunk(job):
         if nontrivial(case):
             out["shapes"].add(shape(case))
         for key, what in fails:
-            slim = {k: case[k] for k in ("ps", "vc", "decls", "typedefs", "data", "nbytes")}
-            out["fails"].append((key, what, slim))
+            # the complete case (what `./check C16 --replay` needs) for the first occurrences of a key only
+            seen[key] = seen.get(key, 0) + 1
+            out["fails"].append((key, what, case if seen[key] <= 2 else None))
         if out["sample"] is None and len(case["decls"]) > 1 and not fails:
             out["sample"] = {"ps": case["ps"], "decls": case["decls"], "lay": case["lay"],
                              "data": case["data"][:case["nbytes"]]}
